@@ -244,6 +244,19 @@ CHECKS = {
         design_ref="DESIGN.md 5 C11",
         note=NOTE_COMMON + " The reference is a fresh abTEM potential (metamorphic oracle); tolerance 2e-5.",
     ),
+    "C09": dict(
+        text=("TLC enumerates SlicingImpl (cumulative-thickness bin edges nudged down by an infinitesimal, digitize, label -> slice) "
+              "for every cell height <= 4 (thorough 6) units, every slicing (all compositions in half units) and every atom height "
+              "on the quarter lattice, checking exactly-one-slice, boundary-goes-up and sum-to-height; every slicing runs on real "
+              "potentials holding one atom per lattice height (so every boundary and near-boundary position is present) for length "
+              "units 1.0, 0.5, 0.3 and 0.1, formed both by multiplication and by repeated addition (cumulative-sum drift); "
+              "SlicingTrace.tla decides the observed slice of every atom against SliceOf in integer arithmetic, and bounds the "
+              "logged deviations for 'potential of a union = sum of potentials' (random splits, both projections) and 'projected "
+              "potential independent of slicing' (infinite projection)."),
+        technique="TLA+ model of slice assignment over an integer lattice (TLC) + TLC-enumerated slicings on real potentials + TLC trace validation",
+        design_ref="DESIGN.md 5 C09",
+        note=NOTE_COMMON + " Atoms are identified by their unique lateral position; numeric tolerance 2e-5.",
+    ),
 }
 
 NOT_APPLICABLE = {
